@@ -1,4 +1,4 @@
-import Q1t.Proofs.CQasmTextCircuit
+import Q1t.Proofs.CQasmTextClass
 import Q1t.Proofs.CQasmWFWitness
 import Q1t.Proofs.CQasmComplex
 set_option linter.unusedSimpArgs false
@@ -78,5 +78,42 @@ theorem readsBack_unit : ReadsBack (α := ℂ) unitNum S0 (fun _ => (0 : ℝ)) w
     have h1 := (h g hg).resolve_left (by simp [hgg]) l hl (.hole inner) hin
     exact holeVal_zero inner h1 ρ hρ
   crk := ⟨rfl, rfl⟩
+
+/-- a circuit of the class: one-line and multi-line parametrised gates, a bundle, a loop around a bundle and a
+composite, conditional bundles / loops / phase gates on one and two control bits, measurements, `measure_all` -/
+def textSample : XCircuit Unit :=
+  ⟨3, 3, [.gate (.lib "H" []) [0], .gate (.lib "CRX" [.direct ()]) [2, 0], .gate (.lib "CU3" [.direct (), .direct (), .direct ()]) [0, 1],
+    .measure 0 0 .Z, .measure 1 1 .Y,
+    .cond [0] 1 (.kron (.lib "T" []) (.lib "RX" [.direct ()])) [2, 1],
+    .gate (.loop "rep".toList 2 "body" 2
+      (.cons (.kron (.lib "H" []) (.lib "X" [])) [1, 0] (.cons (.comp "c" 1 (.cons (.lib "T" []) [0] .nil)) [1] .nil))) [2, 0],
+    .cond [1, 0] 2 (.loop "l".toList 3 "b" 1 (.cons (.lib "V" []) [0] .nil)) [2],
+    .gate (.lib "CCRY" [.direct ()]) [0, 2, 1], .reset 1, .barrier [0, 1], .measureAll [0, 1, 2] .Z]⟩
+
+theorem textSample_class : textSample.ops.all (classOp (fun _ => (0 : ℝ)) 3) = true := by decide +kernel
+
+theorem textSample_exports :
+    (match exportText cqGates unitNum textSample with | .ok _ => true | _ => false) = true := by decide +kernel
+
+/-- **non-vacuity of the text theorem**: the sample circuit is exported, and its text parses to a well-formed program
+whose densities are those of the circuit's Born branches -/
+theorem text_equiv_example : ∃ t, exportText cqGates unitNum textSample = .ok t ∧
+    ∃ p r1 cops r2, CQ1.parseProgram t = .ok p ∧ p.nq = 3 ∧ CQ1.programWf p = none ∧
+      CQ1.programSem S0 (fun _ => true) p = some r1 ∧
+      (textSample.ops.map (mapOp fun _ => (0 : ℝ))).mapM toCOp = some cops ∧
+      Spec.branches 3 (fun _ => true) cops (CQ1.initial 3) = some r2 ∧
+      ∀ w, CQ1.density (P := ℝ) (2 ^ 3) r1 w = CQ1.density (P := ℝ) (2 ^ 3) r2 w := by
+  have hx := textSample_exports
+  cases ht : exportText cqGates unitNum textSample with
+  | err e => rw [ht] at hx; cases hx
+  | panic => rw [ht] at hx; cases hx
+  | ok t =>
+    refine ⟨t, rfl, ?_⟩
+    have hcl : ∀ op ∈ textSample.ops, classOp (fun _ => (0 : ℝ)) textSample.nq op = true := by
+      have := textSample_class
+      rw [List.all_eq_true] at this
+      exact this
+    exact text_equiv_class (α := ℂ) lawful lawfulHalf lawfulNegHalf lawfulQuarter unitNum S0 (fun _ => (0 : ℝ))
+      readsBack_unit textSample (by decide) (by decide) (fun _ => true) (fun _ => rfl) hcl t ht
 
 end Q1t.AmpComplex
